@@ -13,6 +13,7 @@ from lbry.wallet.transaction import Transaction, Output
 from lbry.schema.claim import Claim
 from lbry.dht.constants import DATA_EXPIRATION
 from lbry.blob.blob_info import BlobInfo
+from lbry.stream.descriptor import sanitize_file_name
 
 if typing.TYPE_CHECKING:
     from lbry.blob.blob_file import BlobFile
@@ -677,7 +678,8 @@ class SQLiteStorage(SQLiteMixin):
                 ).fetchone()
                 delete_stream(transaction, descriptor)  # this will also delete the content claim
                 store_stream(transaction, sd_blob, descriptor)
-                store_file(transaction, descriptor.stream_hash, os.path.basename(descriptor.suggested_file_name),
+                store_file(transaction, descriptor.stream_hash,
+                           sanitize_file_name(os.path.basename(descriptor.suggested_file_name)),
                            download_directory, 0.0, 'stopped', content_fee=content_fee)
                 if content_claim:
                     transaction.execute("insert or ignore into content_claim values (?, ?, ?)", content_claim)
